@@ -981,10 +981,12 @@ namespace awkward {
     else {
       ContentPtr next = content_.get()->num(posaxis, depth + 1);
       Index64 offsets = compact_offsets64(true);
+      int64_t start = (int64_t)offsets_.getitem_at_nowrap(0);
+      int64_t stop = (int64_t)offsets_.getitem_at_nowrap(offsets_.length() - 1);
       return std::make_shared<ListOffsetArray64>(Identities::none(),
                                                  util::Parameters(),
                                                  offsets,
-                                                 next);
+                                                 next.get()->getitem_range_nowrap(start, stop));
     }
   }
 
